@@ -275,6 +275,7 @@ func c01Sweep(t *testing.T, ep entryPoint, maxLen int) int64 {
 }
 
 func TestC01(t *testing.T) {
+	defer harness.Uncaught(t)
 	startC01Watchdog()
 	// (1) bounded-exhaustive sweep, entry points sharded over processes
 	maxLen := 40
